@@ -116,7 +116,7 @@ func readOp(op string, rd *rjson.ValueReader, data []byte) (interface{}, int, er
 func runCase3(f []string) (string, bool) {
 	switch f[0] {
 	case "rv", "ro", "ra", "rva", "roa", "raa":
-		data := unhex(f[1])
+		data := unhexWin(f[1])
 		keep := append([]byte{}, data...)
 		v, p, err := readOp(f[0][:2], nil, data)
 		if !bytes.Equal(data, keep) {
@@ -130,7 +130,7 @@ func runCase3(f []string) (string, bool) {
 		}
 		return fmt.Sprintf("ok %d %s", p, canon(v)), true
 	case "rvc", "roc", "rac": // decode, then StdLibCompatible*: what encoding/json decodes
-		data := unhex(f[1])
+		data := unhexWin(f[1])
 		v, p, err := readOp(f[0][:2], nil, data)
 		if err != nil {
 			return "err", true
@@ -181,7 +181,7 @@ func runReaderHist(f []string) string {
 	bad := ""
 	for _, c := range f[1:] {
 		parts := strings.Split(c, ":")
-		data := unhex(parts[1])
+		data := unhexWin(parts[1])
 		v, p, err := readOp(parts[0], rd, data)
 		if st := rd.VerifReaderState(); st.Depth != 0 {
 			bad = fmt.Sprintf("DEPTH-NOT-RESET %d", st.Depth)
@@ -409,7 +409,7 @@ func canonSk(v interface{}) string {
 
 // compose <hex> <seed> <all|mix>
 func runCompose(f []string) string {
-	data := unhex(f[1])
+	data := unhexWin(f[1])
 	seed, _ := strconv.Atoi(f[2])
 	c := &composer{seed: seed, base: data, readAll: f[3] == "all"}
 	v, p, err := c.value(data, 0)
@@ -481,7 +481,7 @@ func keyCollision(d []byte) bool {
 func oracleCase3(f []string) (string, bool) {
 	switch f[0] {
 	case "rvc", "roc", "rac":
-		d := unhex(f[1])
+		d := unhexWin(f[1])
 		if maxDepth(d) > 9990 {
 			// encoding/json counts nesting the same way; keep the boundary to the dedicated depth cases
 		}
@@ -507,7 +507,7 @@ func oracleCase3(f []string) (string, bool) {
 		// C08: same final offset as direct whole-value decoding; a decoder that reads every
 		// member reconstructs the same tree; where direct decoding fails a validating
 		// read-everything decoder fails too.
-		d := unhex(f[1])
+		d := unhexWin(f[1])
 		v, p, err := rjson.ReadValue(d)
 		if err != nil {
 			// every member is read with a validating reader in both modes (the fast skipper only after the
@@ -531,7 +531,7 @@ func oracleCase3(f []string) (string, bool) {
 		var outs []string
 		for _, c := range f[1:] {
 			parts := strings.Split(c, ":")
-			v, p, err := readOp(parts[0], nil, unhex(parts[1]))
+			v, p, err := readOp(parts[0], nil, unhexWin(parts[1]))
 			if err != nil {
 				outs = append(outs, "err")
 			} else {
